@@ -126,28 +126,38 @@ class Recorder:
          sfm.FWHM2CC, sfm.CC2FHWM) = self._saved
 
 
+def norm_wcs(w):
+    """older replay files carry one 'scale'; the affine map has separate scales per pixel axis (scx rows / degree of
+    dec, scy columns / degree of ra) and per ellipse axis (sca, scb)"""
+    w = dict(w)
+    for k in ('scx', 'scy', 'sca', 'scb'):
+        w.setdefault(k, w.get('scale', 256.0))
+    return w
+
+
 @contextlib.contextmanager
 def affine_wcs(w):
     """replace the four WCS conversions of WCSHelper by an affine map with exact binary arithmetic"""
-    cx, cy, sc, ra0, dec0, rot = (w[k] for k in ('cx', 'cy', 'scale', 'ra0', 'dec0', 'rot'))
+    w = norm_wcs(w)
+    cx, cy, scx, scy, sca, scb, ra0, dec0, rot = (w[k] for k in ('cx', 'cy', 'scx', 'scy', 'sca', 'scb', 'ra0', 'dec0', 'rot'))
     H = wcs_helpers.WCSHelper
     saved = (H.sky2pix, H.pix2sky, H.sky2pix_ellipse, H.pix2sky_ellipse)
 
     def sky2pix(self, pos):
         ra, dec = pos
-        return [(dec - dec0) * sc + cx, (ra0 - ra) * sc + cy]
+        return [(dec - dec0) * scx + cx, (ra0 - ra) * scy + cy]
 
     def pix2sky(self, pixel):
         x, y = pixel
-        return [ra0 - (y - cy) / sc, dec0 + (x - cx) / sc]
+        return [ra0 - (y - cy) / scy, dec0 + (x - cx) / scx]
 
     def sky2pix_ellipse(self, pos, a, b, pa):
         x, y = sky2pix(self, pos)
-        return x, y, a * sc, b * sc, pa + rot
+        return x, y, a * sca, b * scb, pa + rot
 
     def pix2sky_ellipse(self, pixel, sx, sy, theta):
         ra, dec = pix2sky(self, pixel)
-        return ra, dec, sx / sc, sy / sc, theta - rot
+        return ra, dec, sx / sca, sy / scb, theta - rot
 
     H.sky2pix, H.pix2sky, H.sky2pix_ellipse, H.pix2sky_ellipse = sky2pix, pix2sky, sky2pix_ellipse, pix2sky_ellipse
     try:
@@ -164,7 +174,11 @@ CODE = 1024   # data[x, y] = x * CODE + y + 1 : every finite pixel of a cut-out 
 def gen_exact_case(rng):
     rows, cols = rng.randint(12, 44), rng.randint(12, 44)
     w = {'cx': float(rows // 2 + 1) + rng.choice([0.0, 0.5, 0.25]), 'cy': float(cols // 2 + 1) + rng.choice([0.0, 0.5, 0.125]),
-         'scale': 256.0, 'ra0': 150.0, 'dec0': -30.0, 'rot': rng.choice([0.0, 0.0, 22.5, -45.0])}
+         'ra0': 150.0, 'dec0': -30.0, 'rot': rng.choice([0.0, 0.0, 22.5, -45.0])}
+    # square pixels, or non-square ones (powers of two keep the arithmetic exact): the major axis may then span
+    # fewer pixels than the minor axis
+    w['scx'], w['scy'], w['sca'], w['scb'] = rng.choice([(256.0, 256.0, 256.0, 256.0)] * 2 + [
+        (256.0, 512.0, 256.0, 512.0), (512.0, 256.0, 512.0, 256.0), (256.0, 512.0, 512.0, 256.0), (128.0, 256.0, 128.0, 256.0)])
     stage = rng.choice([1, 2, 3])
     nisl = rng.choice([1, 1, 2, 3, 4, 6])
     blank, rblank = [], []
@@ -202,9 +216,9 @@ def gen_exact_case(rng):
             pa = rng.randint(-720, 1080) / 4.0 if rng.random() < 0.3 else rng.randint(-359, 360) / 4.0
             cat.append({
                 'uuid': f'u{uid}', 'island': isl, 'source': j,
-                'ra': w['ra0'] - (py + 1 - w['cy']) / w['scale'], 'dec': w['dec0'] + (px + 1 - w['cx']) / w['scale'],
+                'ra': w['ra0'] - (py + 1 - w['cy']) / w['scy'], 'dec': w['dec0'] + (px + 1 - w['cx']) / w['scx'],
                 'peak_flux': rng.choice([1, -1]) * rng.randint(1, 64) / 8.0,
-                'a': 3600.0 * fa / w['scale'], 'b': 3600.0 * fb / w['scale'], 'pa': pa,
+                'a': 3600.0 * fa / w['sca'], 'b': 3600.0 * fb / w['scb'], 'pa': pa,
                 'err_ra': rng.randint(1, 64) / 1024.0, 'err_dec': rng.randint(1, 64) / 1024.0,
                 'err_a': rng.randint(1, 64) / 16.0, 'err_b': rng.randint(1, 64) / 16.0, 'err_pa': rng.randint(1, 64) / 8.0,
                 'flags': rng.choice([0, 0, 0, 1, 2, 4, 8, 16, 32, 64, 5]),
@@ -224,7 +238,7 @@ def write_exact_images(case, work, tag):
     rms = np.ones((rows, cols))
     for (x, y) in case['rms_blank']:
         rms[x, y] = np.nan
-    bp = case['beam_pix'] / case['wcs']['scale']
+    bp = case['beam_pix'] / norm_wcs(case['wcs'])['sca']
     h = make_header((rows, cols), beam=(bp, bp, 0.0))
     h['BITPIX'] = -64
     paths = [os.path.join(work, f'{tag}_{k}.fits') for k in ('img', 'bkg', 'rms')]
@@ -306,11 +320,11 @@ def g_pixlist(ps):
 
 
 def g_obs(case, groups):
-    w = case['wcs']
+    w = norm_wcs(case['wcs'])
     isl = '[' + '; '.join('[' + '; '.join(g_src(d) for d in g) + ']' for g in groups) + ']'
     im = f"(mkImage {case['rows']} {case['cols']} {g_pixlist(case['blank'])} {g_pixlist(case['rms_blank'])})"
     bp = groups[0][0]['beam'] if groups and groups[0] else (case['beam_pix'], case['beam_pix'])
-    return (f"obs {q(w['cx'])} {q(w['cy'])} {q(w['scale'])} {q(w['ra0'])} {q(w['dec0'])} {q(w['rot'])} "
+    return (f"obs {q(w['cx'])} {q(w['cy'])} {q(w['scx'])} {q(w['scy'])} {q(w['sca'])} {q(w['scb'])} {q(w['ra0'])} {q(w['dec0'])} {q(w['rot'])} "
             f"{q(bp[0])} {q(bp[1])} (1 # 2) (2 # 1) {im} {case['stage']} {isl}")
 
 
@@ -406,18 +420,41 @@ TOL_FIXED_SHAPE = 2e-5   # a, b "equal to the input": pix2sky_ellipse o sky2pix_
 TOL_FIXED_PA = 0.01      # degrees
 
 
-def real_header(shape, crval=(150.0, -30.0)):
-    h = make_header(shape, crval=crval, cdelt=PIX / 3600, beam=(BEAM / 3600, BEAM / 3600, 0.0))
+def real_header(shape, hdr=None, crval=(150.0, -30.0)):
+    """hdr = None: square 10 arcsec pixels.  hdr = {'cdelt': [CDELT1, CDELT2] (arcsec, RA axis negative), 'rot': degrees or
+    None}: non-square pixels and / or a rotated PC matrix"""
+    if not hdr:
+        h = make_header(shape, crval=crval, cdelt=PIX / 3600, beam=(BEAM / 3600, BEAM / 3600, 0.0))
+    else:
+        h = make_header(shape, crval=crval, cdelt=(hdr['cdelt'][0] / 3600, hdr['cdelt'][1] / 3600),
+                        beam=(BEAM / 3600, BEAM / 3600, 0.0))
+        if hdr.get('rot') is not None:
+            c, s = math.cos(math.radians(hdr['rot'])), math.sin(math.radians(hdr['rot']))
+            h['PC1_1'], h['PC1_2'], h['PC2_1'], h['PC2_2'] = c, -s, s, c
     h['BITPIX'] = -64
     return h
 
 
+NONSQUARE_HEADERS = [
+    {'cdelt': [-5.0, 10.0], 'rot': None},     # |CDELT2| = 2 |CDELT1|: rows (dec) are the coarse axis
+    {'cdelt': [-10.0, 5.0], 'rot': None},     # the reverse
+    {'cdelt': [-10.0, 10.0], 'rot': 30.0},    # rotated PC matrix, square pixels
+    {'cdelt': [-5.0, 10.0], 'rot': 30.0},     # rotated and non-square
+]
+
+
 def gen_real_case(rng, flavor=None, nsrc=None):
-    """flavor: plain | blend | edge | reject | thin | many"""
+    """flavor: plain | blend | edge | reject | thin | many | nonsq"""
     flavor = flavor or rng.choice(['plain', 'plain', 'blend', 'blend', 'edge', 'reject', 'reject', 'many'])
     rows, cols = rng.randint(70, 110), rng.randint(70, 110)
-    wh = WCSHelper.from_header(real_header((rows, cols)))
-    n = nsrc or {'plain': rng.randint(1, 4), 'blend': rng.randint(2, 4), 'edge': rng.randint(1, 3), 'reject': rng.randint(2, 5),
+    hdr = None
+    if flavor == 'nonsq':
+        # non-square and / or rotated pixels, mildly elongated sources along both pixel axes and obliquely: the sky major
+        # axis may span fewer pixels than the minor axis
+        hdr = rng.choice(NONSQUARE_HEADERS)
+        rows, cols = rng.randint(150, 180), rng.randint(150, 180)
+    wh = WCSHelper.from_header(real_header((rows, cols), hdr))
+    n = nsrc or {'nonsq': rng.randint(1, 3), 'plain': rng.randint(1, 4), 'blend': rng.randint(2, 4), 'edge': rng.randint(1, 3), 'reject': rng.randint(2, 5),
                  'thin': rng.randint(1, 2), 'many': rng.randint(22, 30)}[flavor]
     if flavor == 'many':
         rows, cols = 200, 210
@@ -448,6 +485,12 @@ def gen_real_case(rng, flavor=None, nsrc=None):
         if flavor == 'thin':
             b = rng.uniform(0.3, 0.75) * min(a, BEAM)        # below 0.8 * min(a, beam)
         pa = rng.uniform(-89.0, 90.0)
+        if flavor == 'nonsq':
+            a = rng.uniform(55.0, 95.0)
+            b = a * rng.uniform(0.62, 0.95)
+            pa = rng.choice([rng.uniform(-4, 4), rng.uniform(86, 90), rng.uniform(-89.9, -86), rng.uniform(-89, 90),
+                             -(hdr['rot'] or 0.0) + rng.choice([0.0, 90.0]) + rng.uniform(-3, 3)])
+            pa = ((pa + 90.0) % 180.0) - 90.0 if not -90.0 < pa <= 90.0 else pa
         return round(a, 3), round(b, 3), round(pa, 2)
 
     isl = 0
@@ -462,7 +505,7 @@ def gen_real_case(rng, flavor=None, nsrc=None):
             add(x, y, a, b, pa, 'edge', isl)
             isl += 1
             continue
-        spot = free_spot(14, 34)
+        spot = free_spot(30, 75) if flavor == 'nonsq' else free_spot(14, 34)
         if spot is None:
             break
         x, y = spot
@@ -508,9 +551,9 @@ def gen_real_case(rng, flavor=None, nsrc=None):
             r_['island'], r_['source'] = t_['island'], 0
     rng.shuffle(cat)
     opts = {'stage': rng.choice([1, 2, 3]), 'regroup': rng.random() < 0.6, 'ratio': rng.choice([None, 1.0]),
-            'psf_cols': rng.random() < 0.8, 'input': rng.choice(['list', 'list', 'csv', 'fits', 'vot']),
+            'psf_cols': rng.random() < 0.8 or flavor == 'nonsq', 'input': rng.choice(['list', 'list', 'csv', 'fits', 'vot']),
             'docov': rng.random() < 0.7 and flavor != 'many'}
-    return {'flavor': flavor, 'rows': rows, 'cols': cols, 'cat': cat, 'nan': nan, 'opts': opts}
+    return {'flavor': flavor, 'rows': rows, 'cols': cols, 'hdr': hdr, 'cat': cat, 'nan': nan, 'opts': opts}
 
 
 def expected_accept(case, wh):
@@ -581,7 +624,7 @@ def ustr(u):
 
 
 def run_priorized(case, work, tag, cat, wh, img, record=False):
-    h = real_header((case['rows'], case['cols']))
+    h = real_header((case['rows'], case['cols']), case.get('hdr'))
     path = os.path.join(work, f'{tag}.fits')
     write_image(path, img, h)
     o = case['opts']
@@ -598,7 +641,7 @@ def run_priorized(case, work, tag, cat, wh, img, record=False):
 
 def check_real(case, work, tag='r', compare_without_rejected=True):
     """returns (problems, stats); problems = list of strings, empty when the property holds on this case"""
-    wh = WCSHelper.from_header(real_header((case['rows'], case['cols'])))
+    wh = WCSHelper.from_header(real_header((case['rows'], case['cols']), case.get('hdr')))
     acc, blank = expected_accept(case, wh)
     img = render(case, wh, acc, blank)
     stats = {'accepted': sum(acc.values()), 'rejected': len(acc) - sum(acc.values()), 'fixed_kept': 0, 'fixed_moved': []}
@@ -761,7 +804,7 @@ def validate_wcs(rng, n):
     worst = {'pos_deg': 0.0, 'ab_rel': 0.0, 'pa_deg': 0.0, 'ab_rel_shifted': 0.0, 'pa_deg_shifted': 0.0}
     for _ in range(n):
         rows, cols = rng.randint(70, 210), rng.randint(70, 210)
-        wh = WCSHelper.from_header(real_header((rows, cols)))
+        wh = WCSHelper.from_header(real_header((rows, cols), rng.choice([None, None] + NONSQUARE_HEADERS)))
         x, y = rng.uniform(-1, rows), rng.uniform(-1, cols)
         ra, dec = wh.pix2sky([x + 1, y + 1])
         p = wh.sky2pix([ra, dec])
